@@ -63,8 +63,15 @@ var c10KeyNames = map[string]string{
 	"non-ascii":       "schl\u00fcssel@example.com",
 	"slash":           "dir/key",
 	"space":           "my key",
+	// names whose last characters are letters that also occur in ".rsa.pub"
+	"ends-r":   "packager",
+	"ends-us":  "ops@example.us",
+	"ends-b":   "bob",
+	"is-pub":   "pub",
+	"ends-rsa": "builder.rsa",
+	"dots":     "a.b.",
 }
-var c10KeyNameOrder = []string{"suffixed", "mail", "from-maintainer", "len82", "len83", "len90", "len99", "len160", "non-ascii", "slash", "space"}
+var c10KeyNameOrder = []string{"suffixed", "mail", "from-maintainer", "len82", "len83", "len90", "len99", "len160", "non-ascii", "slash", "space", "ends-r", "ends-us", "ends-b", "is-pub", "ends-rsa", "dots"}
 
 type c10Key struct {
 	file, pub string
@@ -77,35 +84,39 @@ type c10Key struct {
 }
 
 var c10Keys = map[string]c10Key{
-	"armored":               {file: "privkey_unprotected.asc", pub: "pubkey"},
-	"binary":                {file: "privkey_unprotected.gpg", pub: "pubkey"},
-	"protected":             {file: "privkey.asc", pub: "pubkey", givePass: "hunter2", passVar: "NFPM_PASSPHRASE"},
-	"protected-binary":      {file: "privkey.gpg", pub: "pubkey", givePass: "hunter2", passVar: "FORMAT"},
-	"subkey-only":           {file: "privkey_unprotected_subkey_only.asc", pub: "pubkey"},
-	"keyid-primary":         {file: "privkey_unprotected.asc", pub: "pubkey", keyID: "bc8acdd415bd80b3"},
-	"keyid-subkey":          {file: "privkey_unprotected.asc", pub: "pubkey", keyID: "9890904dfb2ec88a"},
-	"wrong-passphrase":      {file: "privkey.asc", pub: "pubkey", givePass: "hunter3", passVar: "NFPM_PASSPHRASE", wantFail: true},
-	"no-passphrase":         {file: "privkey.asc", pub: "pubkey", wantFail: true},
-	"multiple-keys":         {file: "multiple_privkeys.asc", pub: "pubkey", wantFail: true},
-	"keyid-invalid":         {file: "privkey_unprotected.asc", pub: "pubkey", keyID: "xyz", wantFail: true},
-	"key-missing":           {file: "no-such-key.asc", pub: "pubkey", wantFail: true},
-	"second":                {file: "second_priv.asc", pub: "second_pub"},
-	"armored-leading-blank": {file: "GEN:leading-blank", pub: "pubkey"},
-	"armored-leading-text":  {file: "GEN:leading-text", pub: "pubkey"},
-	"armored-crlf":          {file: "GEN:crlf", pub: "pubkey"},
-	"armored-trailing-text": {file: "GEN:trailing-text", pub: "pubkey"},
-	"keyid-decimal":         {file: "decimal_priv.asc", pub: "decimal_pub", keyID: "4399095419976992"},
-	"decimal-no-keyid":      {file: "decimal_priv.asc", pub: "decimal_pub"},
-	"pkcs1":                 {file: "rsa_unprotected.priv", pub: "rsa_unprotected.pub", apk: true},
-	"pkcs8":                 {file: "rsa_pkcs8.priv", pub: "rsa_pkcs8.pub", apk: true},
-	"pkcs8-4096":            {file: "rsa4096.priv", pub: "rsa4096.pub", apk: true},
-	"encrypted-pem":         {file: "rsa.priv", pub: "rsa.pub", givePass: "hunter2", passVar: "FORMAT", apk: true},
-	"encrypted-pem-general": {file: "rsa.priv", pub: "rsa.pub", givePass: "hunter2", passVar: "NFPM_PASSPHRASE", apk: true},
-	"encrypted-pem-wrong":   {file: "rsa.priv", pub: "rsa.pub", givePass: "nope", passVar: "FORMAT", apk: true, wantFail: true},
-	"pem-garbage":           {file: "wrong_key_format.priv", pub: "rsa.pub", apk: true, wantFail: true},
+	"armored":          {file: "privkey_unprotected.asc", pub: "pubkey"},
+	"binary":           {file: "privkey_unprotected.gpg", pub: "pubkey"},
+	"protected":        {file: "privkey.asc", pub: "pubkey", givePass: "hunter2", passVar: "NFPM_PASSPHRASE"},
+	"protected-binary": {file: "privkey.gpg", pub: "pubkey", givePass: "hunter2", passVar: "FORMAT"},
+	"subkey-only":      {file: "privkey_unprotected_subkey_only.asc", pub: "pubkey"},
+	// unprotected keys while a passphrase is set anyway (e.g. the general variable, meant for another format's key)
+	"subkey-only-with-passphrase": {file: "privkey_unprotected_subkey_only.asc", pub: "pubkey", givePass: "irrelevant", passVar: "NFPM_PASSPHRASE"},
+	"armored-with-passphrase":     {file: "privkey_unprotected.asc", pub: "pubkey", givePass: "irrelevant", passVar: "FORMAT"},
+	"binary-with-passphrase":      {file: "privkey_unprotected.gpg", pub: "pubkey", givePass: "irrelevant", passVar: "NFPM_PASSPHRASE"},
+	"keyid-primary":               {file: "privkey_unprotected.asc", pub: "pubkey", keyID: "bc8acdd415bd80b3"},
+	"keyid-subkey":                {file: "privkey_unprotected.asc", pub: "pubkey", keyID: "9890904dfb2ec88a"},
+	"wrong-passphrase":            {file: "privkey.asc", pub: "pubkey", givePass: "hunter3", passVar: "NFPM_PASSPHRASE", wantFail: true},
+	"no-passphrase":               {file: "privkey.asc", pub: "pubkey", wantFail: true},
+	"multiple-keys":               {file: "multiple_privkeys.asc", pub: "pubkey", wantFail: true},
+	"keyid-invalid":               {file: "privkey_unprotected.asc", pub: "pubkey", keyID: "xyz", wantFail: true},
+	"key-missing":                 {file: "no-such-key.asc", pub: "pubkey", wantFail: true},
+	"second":                      {file: "second_priv.asc", pub: "second_pub"},
+	"armored-leading-blank":       {file: "GEN:leading-blank", pub: "pubkey"},
+	"armored-leading-text":        {file: "GEN:leading-text", pub: "pubkey"},
+	"armored-crlf":                {file: "GEN:crlf", pub: "pubkey"},
+	"armored-trailing-text":       {file: "GEN:trailing-text", pub: "pubkey"},
+	"keyid-decimal":               {file: "decimal_priv.asc", pub: "decimal_pub", keyID: "4399095419976992"},
+	"decimal-no-keyid":            {file: "decimal_priv.asc", pub: "decimal_pub"},
+	"pkcs1":                       {file: "rsa_unprotected.priv", pub: "rsa_unprotected.pub", apk: true},
+	"pkcs8":                       {file: "rsa_pkcs8.priv", pub: "rsa_pkcs8.pub", apk: true},
+	"pkcs8-4096":                  {file: "rsa4096.priv", pub: "rsa4096.pub", apk: true},
+	"encrypted-pem":               {file: "rsa.priv", pub: "rsa.pub", givePass: "hunter2", passVar: "FORMAT", apk: true},
+	"encrypted-pem-general":       {file: "rsa.priv", pub: "rsa.pub", givePass: "hunter2", passVar: "NFPM_PASSPHRASE", apk: true},
+	"encrypted-pem-wrong":         {file: "rsa.priv", pub: "rsa.pub", givePass: "nope", passVar: "FORMAT", apk: true, wantFail: true},
+	"pem-garbage":                 {file: "wrong_key_format.priv", pub: "rsa.pub", apk: true, wantFail: true},
 }
 
-var c10PGPKeys = []string{"armored-leading-blank", "armored-leading-text", "armored-crlf", "armored-trailing-text", "keyid-decimal", "decimal-no-keyid", "armored", "binary", "protected", "protected-binary", "subkey-only", "keyid-primary", "keyid-subkey", "wrong-passphrase", "no-passphrase", "multiple-keys", "keyid-invalid", "key-missing"}
+var c10PGPKeys = []string{"subkey-only-with-passphrase", "armored-with-passphrase", "binary-with-passphrase", "armored-leading-blank", "armored-leading-text", "armored-crlf", "armored-trailing-text", "keyid-decimal", "decimal-no-keyid", "armored", "binary", "protected", "protected-binary", "subkey-only", "keyid-primary", "keyid-subkey", "wrong-passphrase", "no-passphrase", "multiple-keys", "keyid-invalid", "key-missing"}
 var c10APKKeys = []string{"pkcs1", "pkcs8", "pkcs8-4096", "encrypted-pem", "encrypted-pem-general", "encrypted-pem-wrong", "pem-garbage"}
 
 // c10Payloads is the number of payload shapes (0 = empty).
@@ -497,7 +508,11 @@ func checkC10(env *engine.Env, ci any) engine.Outcome {
 	if f == "apk" {
 		sigm["key_name"] = "origin"
 		if c.KeyName != "" {
-			kn := c10KeyNames[c.KeyName]
+			kn, known := c10KeyNames[c.KeyName]
+			if !known {
+				out.HarnessError = "unknown key-name class " + c.KeyName
+				return out
+			}
 			if kn == "" {
 				delete(sigm, "key_name")
 				kn = "jane@example.com" // the address of the configured maintainer
@@ -621,7 +636,7 @@ func checkC10(env *engine.Env, ci any) engine.Outcome {
 	if perr != nil && c.KeyName != "" {
 		// a key name the signature entry's header cannot carry: refusing is fine, as a signing failure
 		switch c.KeyName {
-		case "suffixed", "mail", "from-maintainer", "len82", "space":
+		case "suffixed", "mail", "from-maintainer", "len82", "space", "ends-r", "ends-us", "ends-b", "is-pub", "ends-rsa", "dots":
 			viol("sig:signing-fails:apk:key-name:"+c.KeyName, "key name %q fits the signature entry's header, Package failed: %v", c10KeyNames[c.KeyName], perr)
 		default:
 			var sf *nfpm.ErrSigningFailure
@@ -632,7 +647,7 @@ func checkC10(env *engine.Env, ci any) engine.Outcome {
 		return out
 	}
 	if perr != nil {
-		viol("sig:signing-fails:"+c.Method+":"+c.Key, "valid signing configuration, Package failed: %v", perr)
+		viol("sig:signing-fails:"+c.Method+":"+strings.TrimSuffix(c.Key, "-with-passphrase"), "valid signing configuration (key kind %s), Package failed: %v", c.Key, perr)
 		return out
 	}
 	pkg, derr := pkgread.Decode(f, buf.Bytes(), env.Tools)
